@@ -21,6 +21,7 @@ RULE = ('operator trees over {unary -, * / %, + -, = != < <= > >=, IN, BETWEEN, 
         'with <= 2 operators over the full alphabet (quick) / <= 3 (thorough; quick uses class representatives for 3), random '
         'trees of 4-7 operators, each x contexts {select list, WHERE, ON, HAVING, function argument, CASE branch} x 3 dialects, '
         'plus redundant user parentheses; non-trivial = tree with >= 2 operators; distinct by (tree, context, dialect)')
+RULE += '; also: NOT IN / NOT LIKE, operator keywords in lower / mixed case, expressions laid out over several lines with tabs and comments'
 ASSUMPTIONS = ['standard precedence (tightest first): unary minus; * / %; + -; comparisons and predicates; NOT; AND; OR; left-assoc chains',
                'a comparison/predicate directly under a comparison/predicate is always parenthesised (the property\'s side condition)',
                'sqlite3 3.40 as reference engine; its finer levels (< tighter than =) are invisible under the side condition']
